@@ -13,13 +13,13 @@ const LITS: &[char] = &['/', 'a', 'b', 'c', '-', '.', 'x', '\u{e9}', '(', '+'];
 const GROUPS: &[&str] = &[
     "?:[a-z]+", "[0-9]+", "?:.+?", "cat|dog", "?:([\\p{Ll}]|\\-)+?", "?:\\(|a)+", "?:[a-c]{2}", "?:(?:x|y)(?:z)?", "?:(a|\\)|b)+?", "?:[)(]\\)x|y)",
     // parentheses that are literals inside a character class (the scanner of prefix.rs is class-aware since 9944bb4)
-    "?:[^)]+", "[^(]+", "?:[])]x", "?:x[!-[](]])y",
+    "?:[^)]+", "[^(]+", "?:[])]x", "?:x[!-[](]])y", "?:[^])]+",
 ];
 /// samples inside / outside each group's language (same order as GROUPS)
 const SAMPLES: &[&[&str]] = &[
     &["foo", "a", "A1", ""], &["42", "7", "x", ""], &["zz", "a/b", "", "-"], &["cat", "dog", "cow", "catdog"],
     &["ab-c", "\u{e9}a", "A", ""], &["(a", "aa", "b", "("], &["ab", "cc", "abc", "d"], &["xz", "y", "z", "xy"], &["a)b", ")", "c", ""], &["))x", "y", "()x", "x"],
-    &["foo", "a(b", "a)b", ""], &["foo", "x)", "(", ""], &["]x", ")x", "x", "]"], &["x!]]y", "x[]]y", "x]]y", "xa]]y"],
+    &["foo", "a(b", "a)b", ""], &["foo", "x)", "(", ""], &["]x", ")x", "x", "]"], &["x!]]y", "x[]]y", "x]]y", "xa]]y"], &["foo", "a(b", "a)b", "]"],
 ];
 
 fn render(ts: &[Tok]) -> String {
